@@ -287,7 +287,7 @@ def pattern_case(draw):
     cells = draw(st.lists(cell if dense else sparse_cell, min_size=tracks * lines, max_size=tracks * lines))
     # what happened to the Pattern object before the image arrives: nothing, its data was looked at, it
     # was bulk-edited, one of its cells was replaced by another Note object, another image was loaded
-    prior = draw(st.sampled_from([None, None, "read", "set_via_fn", "set_via_gen", "replace_cell", "other_image"]))
+    prior = draw(st.sampled_from([None, None, "read", "set_via_fn", "set_via_gen", "replace_cell", "other_image", "resized_wider", "resized_narrower", "resized_lines"]))
     return {"tracks": tracks, "lines": lines, "cells": cells, "via": draw(st.sampled_from(["raw_data", "notes"])), "prior": prior}
 
 
@@ -298,7 +298,17 @@ def check_pattern(case):
     image = b"".join(struct.pack("<BBHHH", *c) for c in cells)
     p = Pattern(tracks=tracks, lines=lines)
     prior = case.get("prior")
-    if prior == "read":
+    if prior and prior.startswith("resized"):
+        # the pattern had another shape, was in use, and is then given the shape of the image:
+        # tracks / lines are assigned and clear() rebuilds the grid
+        t0 = min(32, tracks + 3) if prior == "resized_narrower" else max(1, tracks - 2) if prior == "resized_wider" else tracks
+        l0 = lines + 5 if prior != "resized_lines" else max(1, lines // 2)
+        p = Pattern(tracks=t0, lines=l0)
+        p.data[l0 - 1][t0 - 1].vel = 77
+        p.raw_data  # noqa: B018
+        p.tracks, p.lines = tracks, lines
+        p.clear()
+    elif prior == "read":
         p.raw_data  # noqa: B018
         p.data[lines - 1][tracks - 1].vel  # noqa: B018
     elif prior == "set_via_fn":
